@@ -20,6 +20,7 @@ Require Import MV.Lib.Base MV.C16.Gen MV.C16.Model MV.C16.Checkers.
 Require Import MV.C16.Proofs_Base MV.C16.Proofs_UF MV.C16.Proofs_Struct MV.C16.Proofs_Rebuild.
 Require Import MV.C16.Proofs_Prune MV.C16.Proofs_Cotree MV.C16.Proofs_Top MV.C16.Proofs_Examples MV.C16.Proofs_RepIndep.
 Require Import MV.C16.Proofs_Ring MV.C16.Proofs_Border MV.C16.Proofs_SingBorder MV.C16.Proofs_CheckRing MV.C16.Proofs_Dual.
+Require Import MV.C16.Proofs_OutBorder MV.C16.Proofs_Uncut MV.C16.Proofs_Final.
 Open Scope Z_scope.
 
 (* 1. FULL, for ANY face list, edge table and cut set: the rebuilt mesh has the input faces in the same order with
@@ -158,6 +159,51 @@ Theorem C16_cut_edge_ends_on_border : forall faces edges cut s,
             (ref_vertex r (fst b) = Some s \/ ref_vertex r (snd b) = Some s).
 Proof. exact singular_on_border_b. Qed.
 Print Assumptions C16_cut_edge_ends_on_border.
+
+(* 5d. FULL ("only the edges reported as cut were opened", stated on the CUT MESH): on a surface satisfying `surface_ok_b`
+       whose edge table is complete (`table_ok_b`), for ANY cut set, (i) the copy of an input half-edge x -> y of
+       face f is a border half-edge of the cut mesh IFF x -> y has no face on the other side or the two faces of the
+       edge do not share both ends; (ii) every border half-edge of the cut mesh is such a copy, its ends map to x and
+       y by ref_vertex, and it lies over an input border edge or over an edge of cut_edges - no uncut interior edge
+       contributes to the border.  Non-vacuity: final_hyps_grid, grid_counts. *)
+Theorem C16_cut_mesh_border_exact : forall faces edges cut,
+  surface_ok_b faces edges = true -> table_ok_b faces edges = true ->
+  let r := rebuild faces edges cut in
+  (forall x y f k k', direct_face faces x y = Some (f, k, k') ->
+     (In (out_corner r f k, out_corner r f k') (border_half_edges (out_faces r)) <->
+      direct_face faces y x = None \/
+      exists g h h', direct_face faces y x = Some (g, h, h') /\
+                     ~ (out_corner r f k = out_corner r g h' /\ out_corner r f k' = out_corner r g h))) /\
+  (forall b, In b (border_half_edges (out_faces r)) ->
+     exists f k k' x y, direct_face faces x y = Some (f, k, k') /\ b = (out_corner r f k, out_corner r f k') /\
+       ref_vertex r (fst b) = Some x /\ ref_vertex r (snd b) = Some y /\
+       (direct_face faces y x = None \/ exists e, In e cut /\ 0 <= e < zlen edges /\ joins edges e x y = true)).
+Proof. exact cut_mesh_border_exact. Qed.
+Print Assumptions C16_cut_mesh_border_exact.
+
+(* 5e. FULL (what must NOT change; the sphere exception "is left uncut"): same hypotheses, ANY cut set: all the corners
+       of an input vertex that no cut edge touches get ONE output vertex (interior or border vertex alike); and with
+       an empty cut set ref_vertex is injective on the output vertices - no vertex is duplicated, the cut mesh is the
+       input mesh up to the numbering of its vertices.  Non-vacuity: grid_border_only, tetra_uncut. *)
+Theorem C16_uncut_vertices_not_duplicated : forall faces edges cut,
+  surface_ok_b faces edges = true -> table_ok_b faces edges = true ->
+  let r := rebuild faces edges cut in
+  (forall f i g j, valid_corner faces f i -> valid_corner faces g j ->
+     znth (znth faces f []) i 0 = znth (znth faces g []) j 0 ->
+     (forall e, In e cut -> touches edges e (znth (znth faces f []) i 0) = false) ->
+     out_corner r f i = out_corner r g j) /\
+  (cut = [] -> forall k k', 0 <= k < out_n r -> 0 <= k' < out_n r -> ref_vertex r k = ref_vertex r k' -> k = k').
+Proof. exact uncut_vertices_not_duplicated. Qed.
+Print Assumptions C16_uncut_vertices_not_duplicated.
+
+(* 5f. FULL, any input: the cut mesh has the input's number of faces and its faces use exactly the vertices
+       0 .. out_n - 1 (V' of the Euler characteristic is out_n, F' is F). *)
+Theorem C16_cut_mesh_counts : forall faces edges cut, let r := rebuild faces edges cut in
+  zlen (out_faces r) = zlen faces /\
+  zlen (used_vertices (out_faces r)) = out_n r /\
+  (forall k, In k (used_vertices (out_faces r)) <-> 0 <= k < out_n r).
+Proof. exact cut_mesh_counts. Qed.
+Print Assumptions C16_cut_mesh_counts.
 
 (* 6. FULL: if the pairs of faces across the edges of T link all faces (which a spanning tree of the dual graph
       does) and no edge of T is cut, any two faces of the rebuilt mesh are linked by a chain of faces sharing an
